@@ -1,3 +1,749 @@
 package main
 
-func cmdCheck(args []string) int { return 2 }
+import (
+	"bufio"
+	"encoding/json"
+	"flag"
+	"fmt"
+	"os"
+	"os/exec"
+	"path/filepath"
+	"regexp"
+	"sort"
+	"strconv"
+	"strings"
+	"time"
+
+	"symgo/helper"
+	"symgo/interp"
+)
+
+// HarnessRun is one harness function explored over a list of shapes.
+type HarnessRun struct {
+	Pkg    string // import path
+	Dir    string // directory relative to its module root, for go test
+	Mod    string // "ledger" or "libs"
+	Fn     string
+	Shapes func(s *Session, tier string) []int
+	Cfg    func(tier string) interp.Config
+	Desc   func(s *Session, shape int) string // human description of a shape
+	Canary int                                // number of leading shapes to run the canary twin on
+	CanaryShapes []int                        // explicit canary shapes (overrides Canary)
+}
+
+type CheckSpec struct {
+	ID          string
+	Patterns    []string
+	NeedShapes  bool
+	NeedHelper  bool
+	Runs        []HarnessRun
+	Bounds      func(tier string) map[string]any
+	Assumptions []string
+	Encoded     []string // principal functions encoded (the measured list is added)
+	MaxPaths    func(tier string) int
+	TimeoutMs   int
+	Rule        string
+	Extra       func(s *Session, tier string) (map[string]any, []string) // additional concrete sub-checks: (evidence, violations)
+	Workers     int
+}
+
+type KnownFinding struct {
+	Property string `json:"property"`
+	Harness  string `json:"harness"`
+	Label    string `json:"label"`
+	Match    string `json:"match"`
+	What     string `json:"what"`
+}
+
+type knownFile struct {
+	Findings []KnownFinding `json:"findings"`
+	Fixed    []string       `json:"fixed"`
+}
+
+func loadKnown() knownFile {
+	var k knownFile
+	b, err := os.ReadFile("/verif/known_findings.json")
+	if err == nil {
+		json.Unmarshal(b, &k)
+	}
+	return k
+}
+
+type replayCase struct {
+	ID      string             `json:"id"`
+	Harness string             `json:"harness"`
+	Shape   int                `json:"shape"`
+	Model   map[string]string  `json:"model"`
+	Sched   []interp.SchedStep `json:"sched,omitempty"`
+}
+
+type replayResult struct {
+	ID      string   `json:"id"`
+	Failed  []string `json:"failed"`
+	Reached []string `json:"reached"`
+	Missing []string `json:"missing"`
+	Notes   []string `json:"notes"`
+	Panic   string   `json:"panic"`
+	Assume  bool     `json:"assume_failed"`
+}
+
+// testOverlay = session overlay + harness _test.go files.
+func (s *Session) testOverlayJSON(extraBlank []string) (string, error) {
+	ov := map[string][]byte{}
+	for k, v := range s.Overlay {
+		ov[k] = v
+	}
+	filepath.Walk(harnessDir, func(p string, info os.FileInfo, err error) error {
+		if err == nil && !info.IsDir() && strings.HasSuffix(p, "_test.go") {
+			rel, _ := filepath.Rel(harnessDir, p)
+			b, _ := os.ReadFile(p)
+			ov[filepath.Join(repoDir, rel)] = b
+		}
+		return nil
+	})
+	dir := filepath.Join(s.OutDir, "overlay_test")
+	p, err := helper.WriteOverlayJSON(dir, ov)
+	if err != nil {
+		return "", err
+	}
+	if len(extraBlank) > 0 {
+		// map the package's own test files to nothing
+		b, _ := os.ReadFile(p)
+		var m struct{ Replace map[string]string }
+		json.Unmarshal(b, &m)
+		for _, f := range extraBlank {
+			m.Replace[f] = ""
+		}
+		nb, _ := json.MarshalIndent(m, "", " ")
+		os.WriteFile(p, nb, 0o644)
+	}
+	return p, nil
+}
+
+type replayer struct {
+	bin string
+	err error
+	dir string
+}
+
+// buildReplayer compiles the native replay test binary of one harness package.
+func (s *Session) buildReplayer(run HarnessRun) *replayer {
+	r := &replayer{}
+	modDir := repoDir
+	if run.Mod == "libs" {
+		modDir = filepath.Join(repoDir, "libs")
+	}
+	pkgDir := filepath.Join(modDir, run.Dir)
+	// blank out the package's own tests (they may need Docker or clash with the harness)
+	var blank []string
+	ents, _ := os.ReadDir(pkgDir)
+	for _, e := range ents {
+		if strings.HasSuffix(e.Name(), "_test.go") && !strings.HasPrefix(e.Name(), "zz_") {
+			blank = append(blank, filepath.Join(pkgDir, e.Name()))
+		}
+	}
+	ovj, err := s.testOverlayJSON(blank)
+	if err != nil {
+		r.err = err
+		return r
+	}
+	r.bin = filepath.Join(s.OutDir, "replay_"+strings.ReplaceAll(run.Dir, "/", "_")+".test")
+	cmd := exec.Command("go", "test", "-c", "-vet=off", "-overlay", ovj, "-o", r.bin, "./"+run.Dir)
+	cmd.Dir = modDir
+	cmd.Env = append(os.Environ(), "GOFLAGS=-mod=mod", "GOPROXY=off", "GOSUMDB=off", "GOTOOLCHAIN=local")
+	out, err := cmd.CombinedOutput()
+	if err != nil {
+		r.err = fmt.Errorf("building replay binary for %s: %v\n%s", run.Dir, err, out)
+	}
+	r.dir = pkgDir
+	return r
+}
+
+func (r *replayer) run(outDir, tag string, cases []replayCase) (map[string]replayResult, error) {
+	res := map[string]replayResult{}
+	if len(cases) == 0 {
+		return res, nil
+	}
+	if r.err != nil {
+		return nil, r.err
+	}
+	cf := filepath.Join(outDir, tag+"_cases.jsonl")
+	rf := filepath.Join(outDir, tag+"_results.jsonl")
+	f, err := os.Create(cf)
+	if err != nil {
+		return nil, err
+	}
+	w := bufio.NewWriter(f)
+	for _, c := range cases {
+		b, _ := json.Marshal(c)
+		w.Write(b)
+		w.WriteByte('\n')
+	}
+	w.Flush()
+	f.Close()
+	cmd := exec.Command(r.bin, "-test.run", "^TestZZReplay$", "-test.count=1", "-test.timeout=20m")
+	cmd.Dir = r.dir
+	cmd.Env = append(os.Environ(), "VERIF_CASES="+cf, "VERIF_RESULTS="+rf)
+	out, err := cmd.CombinedOutput()
+	if err != nil {
+		return nil, fmt.Errorf("replay run failed: %v\n%s", err, tail(string(out), 2000))
+	}
+	rfh, err := os.Open(rf)
+	if err != nil {
+		return nil, err
+	}
+	defer rfh.Close()
+	sc := bufio.NewScanner(rfh)
+	sc.Buffer(make([]byte, 1<<20), 1<<26)
+	for sc.Scan() {
+		var rr replayResult
+		if err := json.Unmarshal(sc.Bytes(), &rr); err == nil {
+			res[rr.ID] = rr
+		}
+	}
+	return res, nil
+}
+
+func tail(s string, n int) string {
+	if len(s) > n {
+		return s[len(s)-n:]
+	}
+	return s
+}
+
+func contains(ss []string, x string) bool {
+	for _, s := range ss {
+		if s == x {
+			return true
+		}
+	}
+	return false
+}
+
+type confirmedViolation struct {
+	V         *interp.Violation
+	Desc      string
+	Dir       string
+	Confirmed bool
+	Known     *KnownFinding
+	Native    replayResult
+}
+
+func cmdCheck(args []string) int {
+	fs := flag.NewFlagSet("check", flag.ExitOnError)
+	tier := fs.String("tier", "", "quick|thorough")
+	workers := fs.Int("workers", 16, "workers")
+	fs.Parse(args)
+	if fs.NArg() < 1 {
+		fmt.Fprintln(os.Stderr, "usage: symgo check [-tier quick|thorough] <property id>")
+		return 2
+	}
+	id := fs.Arg(0)
+	if *tier == "" {
+		*tier = os.Getenv("VERIF_TIER")
+	}
+	if *tier == "" {
+		*tier = "quick"
+	}
+	seed, _ := strconv.Atoi(os.Getenv("VERIF_SEED"))
+	spec, ok := specs[id]
+	if !ok {
+		fmt.Fprintln(os.Stderr, "no check for", id)
+		return 2
+	}
+	if spec.Workers > 0 && spec.Workers < *workers {
+		*workers = spec.Workers
+	}
+	return runCheck(spec, *tier, seed, *workers)
+}
+
+func runCheck(spec *CheckSpec, tier string, seed, workers int) int {
+	t0 := time.Now()
+	evPath := filepath.Join("/verif/evidence", spec.ID+".json")
+	os.MkdirAll("/verif/evidence", 0o755)
+	os.Remove(evPath)
+	fail := func(msg string) int {
+		fmt.Println("CHECK-ERROR:", msg)
+		return 2
+	}
+	sess, err := NewSession(SessionOpts{Tier: tier, Patterns: spec.Patterns, NeedShapes: spec.NeedShapes, NeedHelper: spec.NeedHelper, OutName: spec.ID})
+	if err != nil {
+		return fail(err.Error())
+	}
+	defer sess.Close()
+	fmt.Printf("%s %s: setup %.1fs (load+SSA %.1fs)\n", spec.ID, tier, sess.SetupS, sess.P.LoadS)
+
+	// replay binaries are built concurrently with the exploration
+	type rb struct {
+		key string
+		r   *replayer
+	}
+	replayers := map[string]*replayer{}
+	rch := make(chan rb, len(spec.Runs))
+	seenDir := map[string]bool{}
+	nBuild := 0
+	for _, run := range spec.Runs {
+		k := run.Mod + "/" + run.Dir
+		if seenDir[k] {
+			continue
+		}
+		seenDir[k] = true
+		nBuild++
+		go func(run HarnessRun, k string) { rch <- rb{k, sess.buildReplayer(run)} }(run, k)
+	}
+
+	maxPaths := 20000
+	if spec.MaxPaths != nil {
+		maxPaths = spec.MaxPaths(tier)
+	}
+	timeout := spec.TimeoutMs
+	if timeout == 0 {
+		timeout = 10000
+	}
+	var jobs, canaryJobs []*interp.Job
+	jobRun := map[*interp.Job]HarnessRun{}
+	for _, run := range spec.Runs {
+		f := sess.P.Func(run.Pkg, run.Fn)
+		if f == nil {
+			return fail("harness function not found: " + run.Pkg + "." + run.Fn)
+		}
+		cfg := interp.Config{PanicIsViolation: true}
+		if run.Cfg != nil {
+			cfg = run.Cfg(tier)
+		}
+		shapes := run.Shapes(sess, tier)
+		for i, sh := range shapes {
+			j := &interp.Job{Harness: run.Fn, Fn: f, Args: []interp.Value{int64(sh)}, Shape: sh, Cfg: cfg}
+			jobs = append(jobs, j)
+			jobRun[j] = run
+			isCanary := i < run.Canary
+			if run.CanaryShapes != nil {
+				isCanary = false
+				for _, cs := range run.CanaryShapes {
+					if cs == sh {
+						isCanary = true
+					}
+				}
+			}
+			if isCanary {
+				cj := &interp.Job{Harness: run.Fn, Fn: f, Args: []interp.Value{int64(sh)}, Shape: sh, Cfg: cfg, Canary: true}
+				canaryJobs = append(canaryJobs, cj)
+				jobRun[cj] = run
+			}
+		}
+	}
+	ex := &interp.Explorer{In: sess.In, Workers: workers, SolverKind: "z3", TimeoutMs: timeout, MaxPaths: maxPaths, MaxWitnesses: 2, Fallbacks: []string{"z3-new", "cvc5"}}
+	tEx := time.Now()
+	results := ex.Run(jobs)
+	canaryRes := ex.Run(canaryJobs)
+	exploreS := time.Since(tEx).Seconds()
+
+	for i := 0; i < nBuild; i++ {
+		x := <-rch
+		replayers[x.key] = x.r
+	}
+
+	// ---- aggregate
+	var paths, decisions, asserts, assertsSym int
+	var steps int64
+	outcomes := map[string]int{}
+	unsupported := map[string]int{}
+	msgs := map[string]int{}
+	stubs := map[string]int{}
+	assumes := map[string]int{}
+	reached := map[string]int{}
+	var inconcl []string
+	truncated := 0
+	var viols []*confirmedViolation
+	var witnessCases []replayCase
+	witnessExpect := map[string]interp.Witness{}
+	witnessRun := map[string]HarnessRun{}
+	var samples []any
+	for _, r := range results {
+		paths += r.Paths
+		decisions += r.Decisions
+		asserts += r.Asserts
+		assertsSym += r.AssertsSym
+		steps += r.Steps
+		if r.Truncated {
+			truncated++
+		}
+		for k, n := range r.Outcomes {
+			outcomes[k] += n
+		}
+		for k, n := range r.Unsupported {
+			unsupported[k] += n
+		}
+		for k, n := range r.Msgs {
+			msgs[k] += n
+		}
+		for k, n := range r.Stubs {
+			stubs[k] += n
+		}
+		for k, n := range r.Assumes {
+			assumes[k] += n
+		}
+		for k, n := range r.Reached {
+			reached[k] += n
+		}
+		inconcl = append(inconcl, r.Inconcl...)
+		run := jobRun[r.Job]
+		desc := ""
+		if run.Desc != nil {
+			desc = run.Desc(sess, r.Job.Shape)
+		}
+		for _, v := range r.Violations {
+			viols = append(viols, &confirmedViolation{V: v, Desc: desc})
+		}
+		for wi, w := range r.Witnesses {
+			id := fmt.Sprintf("w-%s-%d-%d", r.Job.Harness, r.Job.Shape, wi)
+			witnessCases = append(witnessCases, replayCase{ID: id, Harness: r.Job.Harness, Shape: r.Job.Shape, Model: w.Model})
+			witnessExpect[id] = w
+			witnessRun[id] = run
+			if len(samples) < 3 {
+				samples = append(samples, map[string]any{"harness": r.Job.Harness, "shape": r.Job.Shape, "shape_desc": desc, "paths": r.Paths, "witness_inputs": w.Model, "reached": w.Reached})
+			}
+		}
+	}
+
+	// ---- native replay of counterexamples (dedupe per harness/shape/label: first 3)
+	perKey := map[string]int{}
+	var cexCases []replayCase
+	cexIdx := map[string]*confirmedViolation{}
+	for i, cv := range viols {
+		k := fmt.Sprintf("%s|%d|%s", cv.V.Harness, cv.V.Shape, cv.V.Label)
+		perKey[k]++
+		if perKey[k] > 2 {
+			continue
+		}
+		id := fmt.Sprintf("cex-%d", i)
+		cexCases = append(cexCases, replayCase{ID: id, Harness: cv.V.Harness, Shape: cv.V.Shape, Model: cv.V.Model, Sched: cv.V.Sched})
+		cexIdx[id] = cv
+	}
+	byRun := func(cases []replayCase, runOf func(c replayCase) HarnessRun) map[string][]replayCase {
+		m := map[string][]replayCase{}
+		for _, c := range cases {
+			run := runOf(c)
+			k := run.Mod + "/" + run.Dir
+			m[k] = append(m[k], c)
+		}
+		return m
+	}
+	runOfHarness := func(h string) HarnessRun {
+		for _, r := range spec.Runs {
+			if r.Fn == h {
+				return r
+			}
+		}
+		return spec.Runs[0]
+	}
+	var replayErrs []string
+	for k, cs := range byRun(cexCases, func(c replayCase) HarnessRun { return runOfHarness(c.Harness) }) {
+		res, err := replayers[k].run(sess.OutDir, "cex_"+strings.ReplaceAll(k, "/", "_"), cs)
+		if err != nil {
+			replayErrs = append(replayErrs, err.Error())
+			continue
+		}
+		for id, rr := range res {
+			cv := cexIdx[id]
+			cv.Native = rr
+			switch cv.V.Kind {
+			case "assert":
+				cv.Confirmed = contains(rr.Failed, cv.V.Label)
+			case "panic":
+				cv.Confirmed = rr.Panic != ""
+			case "deadlock":
+				cv.Confirmed = contains(rr.Failed, "deadlock")
+			}
+		}
+	}
+	// propagate confirmation to un-replayed duplicates of a confirmed key
+	confirmedKeys := map[string]bool{}
+	for _, cv := range viols {
+		if cv.Confirmed {
+			confirmedKeys[fmt.Sprintf("%s|%d|%s", cv.V.Harness, cv.V.Shape, cv.V.Label)] = true
+		}
+	}
+
+	// ---- translator validation: witness models replayed natively
+	validated, mismatched := 0, 0
+	var mismatchNotes []string
+	for k, cs := range byRun(witnessCases, func(c replayCase) HarnessRun { return witnessRun[c.ID] }) {
+		res, err := replayers[k].run(sess.OutDir, "wit_"+strings.ReplaceAll(k, "/", "_"), cs)
+		if err != nil {
+			replayErrs = append(replayErrs, err.Error())
+			continue
+		}
+		for id, rr := range res {
+			w := witnessExpect[id]
+			okm := rr.Panic == "" && !rr.Assume && len(rr.Failed) == 0 &&
+				strings.Join(rr.Reached, ",") == strings.Join(w.Reached, ",") &&
+				strings.Join(rr.Notes, "\x00") == strings.Join(w.Notes, "\x00")
+			if okm {
+				validated++
+			} else {
+				mismatched++
+				if len(mismatchNotes) < 5 {
+					mismatchNotes = append(mismatchNotes, fmt.Sprintf("%s: native failed=%v reached=%v panic=%q assume=%v notes=%v; engine reached=%v notes=%v", id, rr.Failed, rr.Reached, firstLine(rr.Panic), rr.Assume, rr.Notes, w.Reached, w.Notes))
+				}
+			}
+		}
+	}
+
+	// ---- canary
+	canaryExpected, canaryCaught, canaryReplayed := len(canaryJobs), 0, 0
+	var canaryCases []replayCase
+	for i, r := range canaryRes {
+		for _, v := range r.Violations {
+			if v.Label == "canary" {
+				canaryCaught++
+				m := map[string]string{"canary": "1"}
+				for k, x := range v.Model {
+					m[k] = x
+				}
+				canaryCases = append(canaryCases, replayCase{ID: fmt.Sprintf("canary-%d", i), Harness: r.Job.Harness, Shape: r.Job.Shape, Model: m, Sched: v.Sched})
+				break
+			}
+		}
+	}
+	for k, cs := range byRun(canaryCases, func(c replayCase) HarnessRun { return runOfHarness(c.Harness) }) {
+		res, err := replayers[k].run(sess.OutDir, "canary_"+strings.ReplaceAll(k, "/", "_"), cs)
+		if err != nil {
+			replayErrs = append(replayErrs, err.Error())
+			continue
+		}
+		for _, rr := range res {
+			if contains(rr.Failed, "canary") {
+				canaryReplayed++
+			}
+		}
+	}
+
+	// ---- additional concrete sub-checks
+	var extraEv map[string]any
+	var extraViol []string
+	if spec.Extra != nil {
+		extraEv, extraViol = spec.Extra(sess, tier)
+	}
+
+	// ---- classify violations: known finding / VIOLATION / unconfirmed
+	known := loadKnown()
+	exit := 0
+	var cexSamples []any
+	printedKnown := map[string]bool{}
+	nViol, nKnown, nUnconf := 0, 0, 0
+	reported := map[string]bool{}
+	for i, cv := range viols {
+		key := fmt.Sprintf("%s|%d|%s", cv.V.Harness, cv.V.Shape, cv.V.Label)
+		if _, replayed := cexIdxHas(cexIdx, cv); !replayed {
+			if !confirmedKeys[key] {
+				continue
+			}
+			continue // duplicate of an already reported key
+		}
+		sig := cv.V.Label + "|" + cv.V.Msg + "|" + cv.Desc
+		if !cv.Confirmed {
+			nUnconf++
+			fmt.Printf("UNCONFIRMED: property=%s harness=%s shape=%d label=%q (solver counterexample did not reproduce natively: native failed=%v panic=%q)\n",
+				spec.ID, cv.V.Harness, cv.V.Shape, cv.V.Label, cv.Native.Failed, firstLine(cv.Native.Panic))
+			continue
+		}
+		var kf *KnownFinding
+		for fi := range known.Findings {
+			f := &known.Findings[fi]
+			if f.Property != spec.ID || (f.Harness != "" && f.Harness != cv.V.Harness) || (f.Label != "" && f.Label != cv.V.Label) {
+				continue
+			}
+			if f.Match != "" {
+				re, err := regexp.Compile(f.Match)
+				if err != nil || !re.MatchString(sig) {
+					continue
+				}
+			}
+			kf = f
+			break
+		}
+		dir := filepath.Join(sess.OutDir, fmt.Sprintf("cex-%d", i))
+		os.MkdirAll(dir, 0o755)
+		writeJSON(filepath.Join(dir, "model.json"), map[string]any{"property": spec.ID, "harness": cv.V.Harness, "shape": cv.V.Shape, "shape_desc": cv.Desc,
+			"kind": cv.V.Kind, "label": cv.V.Label, "msg": cv.V.Msg, "model": cv.V.Model, "sched": cv.V.Sched, "decisions": cv.V.Trace, "native": cv.Native})
+		writeReplayScript(dir, spec, runOfHarness(cv.V.Harness), cv)
+		cv.Dir = dir
+		if kf != nil {
+			nKnown++
+			if !printedKnown[kf.What] {
+				printedKnown[kf.What] = true
+				fmt.Printf("KNOWN-FINDING: property=%s %s\n", spec.ID, kf.What)
+			}
+			cv.Known = kf
+		} else {
+			nViol++
+			if !reported[key] {
+				reported[key] = true
+				fmt.Printf("VIOLATION property=%s replay=%s\n", spec.ID, dir)
+				fmt.Printf("  harness=%s shape=%d label=%q %s\n  inputs=%s\n  shape: %s\n", cv.V.Harness, cv.V.Shape, cv.V.Label, cv.V.Msg, compactModel(cv.V.Model), oneLine(cv.Desc))
+			}
+			exit = 1
+		}
+		if len(cexSamples) < 5 {
+			cexSamples = append(cexSamples, map[string]any{"kind": cv.V.Kind, "label": cv.V.Label, "msg": cv.V.Msg, "harness": cv.V.Harness, "shape": cv.V.Shape, "shape_desc": cv.Desc, "inputs": cv.V.Model, "known_finding": kf != nil, "replay": dir})
+		}
+	}
+	for _, ev := range extraViol {
+		fmt.Printf("VIOLATION property=%s replay=%s\n  %s\n", spec.ID, sess.OutDir, ev)
+		exit = 1
+		nViol++
+	}
+
+	clean := len(unsupported) == 0 && len(inconcl) == 0 && truncated == 0 && mismatched == 0 && len(replayErrs) == 0 &&
+		outcomes["engine-error"] == 0 && outcomes["budget"] == 0 && canaryCaught == canaryExpected && canaryReplayed == canaryExpected
+	for k, n := range unsupported {
+		fmt.Printf("INCONCLUSIVE: %d path(s) left the encodable fragment: %s\n", n, oneLine(k))
+	}
+	for k, n := range msgs {
+		fmt.Printf("NOTE: %d path(s): %s\n", n, oneLine(k))
+	}
+	for _, s := range inconcl {
+		fmt.Println("INCONCLUSIVE:", s)
+	}
+	if truncated > 0 {
+		fmt.Printf("INCONCLUSIVE: %d job(s) truncated at the path budget\n", truncated)
+	}
+	for _, s := range mismatchNotes {
+		fmt.Println("TRANSLATOR-MISMATCH:", s)
+	}
+	for _, s := range replayErrs {
+		fmt.Println("REPLAY-ERROR:", tail(s, 1500))
+	}
+	if canaryCaught != canaryExpected || canaryReplayed != canaryExpected {
+		fmt.Printf("CANARY-FAILURE: expected %d, caught %d, replayed natively %d\n", canaryExpected, canaryCaught, canaryReplayed)
+	}
+
+	// ---- evidence
+	var fnStats []string
+	fnStats = append(fnStats, spec.Encoded...)
+	bounds := map[string]any{}
+	if spec.Bounds != nil {
+		bounds = spec.Bounds(tier)
+	}
+	samples = append(samples, cexSamples...)
+	if len(samples) == 0 {
+		samples = append(samples, map[string]any{"note": "no completed path produced a witness model"})
+	}
+	cov := map[string]any{
+		"states":                        paths,
+		"transitions":                   max(decisions, 1),
+		"traces_validated_against_impl": validated,
+		"samples":                       samples,
+		"exhaustive":                    truncated == 0 && len(unsupported) == 0 && len(inconcl) == 0,
+		"jobs":                          len(jobs),
+		"path_outcomes":                 outcomes,
+		"assertions_evaluated":          asserts,
+		"assertions_decided_by_solver":  assertsSym,
+		"ssa_instructions_interpreted":  steps,
+		"functions_encoded":             fnStats,
+		"bounds":                        bounds,
+		"queries":                       map[string]any{"total": ex.Stats.Queries, "sat": ex.Stats.Sat, "unsat": ex.Stats.Unsat, "unknown": ex.Stats.Unknown, "solver_errors": ex.Stats.Errors, "redecided_by_fallback_solver": ex.FallbackStats},
+		"solver":                        "z3 4.8.12 (-in, incremental; no set-logic); queries it answers unknown are re-decided one-shot by z3 5.1.0 (z3-new), then cvc5 1.0",
+		"solver_s":                      float64(ex.Stats.SolverNs) / 1e9,
+		"explore_wall_s":                exploreS,
+		"stubs_hit":                     stubs,
+		"assumptions_cut_paths":         assumes,
+		"reach_marks":                   reached,
+		"unsupported_paths":             unsupported,
+		"inconclusive":                  inconcl,
+		"jobs_truncated":                truncated,
+		"canary":                        map[string]int{"expected": canaryExpected, "caught_by_solver": canaryCaught, "replayed_natively": canaryReplayed},
+		"translator_validation":         map[string]any{"witness_models_replayed": validated + mismatched, "matched": validated, "mismatched": mismatched, "what": "solver model of a completed path re-run natively: same Reach marks, same Notes, no assertion failure"},
+		"counterexamples":               map[string]int{"solver_sat": len(viols), "confirmed_new": nViol, "known_findings": nKnown, "unconfirmed": nUnconf},
+		"clean":                         clean,
+		"rule":                          spec.Rule,
+	}
+	for k, v := range extraEv {
+		cov[k] = v
+	}
+	if paths == 0 {
+		cov["states"] = 1
+	}
+	ev := map[string]any{
+		"property_id": spec.ID,
+		"tier":        tier,
+		"seed":        seed,
+		"level":       "model_checking",
+		"coverage":    cov,
+		"assumptions": spec.Assumptions,
+		"wall_s":      time.Since(t0).Seconds(),
+		"violations":  nViol,
+	}
+	writeJSON(evPath, ev)
+	fmt.Printf("%s %s: jobs=%d paths=%d decisions=%d outcomes=%v queries=%d (unknown %d) solver=%.1fs validated=%d/%d canary=%d/%d/%d viol=%d known=%d unconfirmed=%d clean=%v wall=%.1fs\n",
+		spec.ID, tier, len(jobs), paths, decisions, outcomes, ex.Stats.Queries, ex.Stats.Unknown, float64(ex.Stats.SolverNs)/1e9,
+		validated, validated+mismatched, canaryExpected, canaryCaught, canaryReplayed, nViol, nKnown, nUnconf, clean, time.Since(t0).Seconds())
+	// remove bulky scratch output (binaries), keep counterexamples
+	cleanupOut(sess.OutDir)
+	return exit
+}
+
+func cexIdxHas(m map[string]*confirmedViolation, cv *confirmedViolation) (string, bool) {
+	for k, v := range m {
+		if v == cv {
+			return k, true
+		}
+	}
+	return "", false
+}
+
+func firstLine(s string) string {
+	if i := strings.IndexByte(s, '\n'); i >= 0 {
+		return s[:i]
+	}
+	return s
+}
+
+func oneLine(s string) string {
+	s = strings.ReplaceAll(s, "\n", " | ")
+	if len(s) > 600 {
+		s = s[:600] + "…"
+	}
+	return s
+}
+
+func compactModel(m map[string]string) string {
+	var ks []string
+	for k := range m {
+		ks = append(ks, k)
+	}
+	sort.Strings(ks)
+	var parts []string
+	for _, k := range ks {
+		parts = append(parts, k+"="+m[k])
+	}
+	s := strings.Join(parts, " ")
+	if len(s) > 800 {
+		s = s[:800] + "…"
+	}
+	return s
+}
+
+func writeJSON(path string, v any) {
+	b, _ := json.MarshalIndent(v, "", " ")
+	os.WriteFile(path, b, 0o644)
+}
+
+func writeReplayScript(dir string, spec *CheckSpec, run HarnessRun, cv *confirmedViolation) {
+	c := replayCase{ID: "replay", Harness: cv.V.Harness, Shape: cv.V.Shape, Model: cv.V.Model, Sched: cv.V.Sched}
+	b, _ := json.Marshal(c)
+	os.WriteFile(filepath.Join(dir, "case.jsonl"), append(b, '\n'), 0o644)
+	sh := fmt.Sprintf("#!/bin/sh\n# replays this counterexample against /repo's current tree\nexec /verif/bin/symgo replay %s %s\n", spec.ID, dir)
+	os.WriteFile(filepath.Join(dir, "replay.sh"), []byte(sh), 0o755)
+}
+
+func cleanupOut(dir string) {
+	ents, _ := os.ReadDir(dir)
+	for _, e := range ents {
+		n := e.Name()
+		if strings.HasSuffix(n, ".test") || n == "verifhelper" || strings.HasPrefix(n, "overlay") || strings.HasPrefix(n, "wit_") || strings.HasPrefix(n, "canary_") {
+			os.RemoveAll(filepath.Join(dir, n))
+		}
+	}
+}
